@@ -639,3 +639,63 @@ SEQ_ENC_N = Contract(
     note='records without open-type members; the per-member option handling (ifNotEmpty) is in the bounded contract '
          'SequenceEncoder.encodeValue[value-object]')
 CONTRACTS = CONTRACTS + [SEQ_ENC_N]
+
+
+# ---- SEQUENCE OF / SET OF components for collections of ANY size ---------------------------------------------------------------
+E_CHUNK = _z3.Function('element.encoding', _I, _S)
+E_ALL = _z3.RecFunction('encodings_of_elements', _S, _I, _S)
+_z3.RecAddDefinition(E_ALL, [_rv, _ru], _z3.If(_ru <= 0, _z3.Empty(_S), _z3.Concat(E_ALL(_rv, _ru - 1), E_CHUNK(_rv[_ru - 1]))))
+
+
+class _Elements(_RecSeqV):
+    def elem(self, i):
+        return Obj('Element', {'__id__': self.cols[0][i]}, name='element')
+
+
+def _chunk_list(ex):
+    """a python list of byte strings of symbolic length: what matters of it is the concatenation and the count"""
+    def append(ex2, self, chunk):
+        from pyvc.core import inr_fact_concat
+        z = _z3.Concat(self.fields['joined'].z, chunk.z)
+        ex2.pc.append(inr_fact_concat(z, self.fields['joined'].z, chunk.z))
+        self.fields['joined'] = SeqV(z, 'bytes')
+        self.fields['count'] = self.fields['count'] + 1
+
+    def join(ex2, self, sep):
+        if not (_z3.is_app(sep.z) and sep.z.decl().kind() == _z3.Z3_OP_SEQ_EMPTY):
+            raise Unsupported('join with a separator')
+        return self.fields['joined']
+    return Obj('list', {'joined': SeqV(_z3.Empty(_S), 'bytes'), 'count': _z3.IntVal(0)}, {'append': append, '__join__': join},
+               name='chunks')
+
+
+def _collection_n(ex, env):
+    vals = env['elements']
+    return Obj('SequenceOf', {'isInconsistent': False}, {'__iter__': lambda ex2, self: _Elements([vals.z], names=('__id__',))},
+               name='value')
+
+
+def _encode_element_n(ex, component, asn1Spec=None, **options):
+    z = E_CHUNK(toint(component.fields['__id__']))
+    ex.assume(inr(z))
+    ok = options.get('ifNotEmpty', None) is None
+    return SeqV(z, 'bytes')
+
+
+SEQOF_COMPONENTS_N = Contract(
+    id='ber.encoder::SequenceOfEncoder._encodeComponents[value-object,any-size]', file=F, qual='SequenceOfEncoder._encodeComponents',
+    properties=['C01', 'C03', 'C02'],
+    params=dict(self=PObj('SequenceOfEncoder'), elements=PIntTuple(), value=PDerived(_collection_n), asn1Spec=PConst(None),
+                encodeFun=PConst(FnV(_encode_element_n, 'encodeFun')), options=POptions(ifNotEmpty=PBool())),
+    globals={'all_of': FnV(lambda ex, vals, upto: SeqV(E_ALL(vals.z if isinstance(vals, SeqV) else vals.cols[0], toint(upto)), 'bytes'), 'all_of'),
+             'unfold': FnV(lambda ex, vals, i: (lambda z, k: _z3.Implies(k >= 0, E_ALL(z, k + 1) == _z3.Concat(E_ALL(z, k), E_CHUNK(z[k]))))(
+                 vals.z if isinstance(vals, SeqV) else vals.cols[0], toint(i)), 'unfold')},
+    loops={0: Loop(index='i', invariant=['chunks.joined == all_of(loop_seq, i)', 'chunks.count == i', 'X.inr(chunks.joined)'],
+                   havoc_fields=['chunks.joined', 'chunks.count'], hints=['unfold(loop_seq, i)'],
+                   # no element is an OPTIONAL member: the collection's own ifNotEmpty must not reach the elements
+                   iter_ensures=['last_kwargs("encodeFun").get("ifNotEmpty", "absent") == "absent"'])},
+    ensures=[('every-element-in-order', 'result.joined == all_of(elements, len(elements)) and result.count == len(elements)')],
+    calls={'encodeFun': _encode_element_n},
+    note='collections without a wrap type (open types: bounded contract)')
+SEQOF_COMPONENTS_N.empty_list = _chunk_list
+CONTRACTS = CONTRACTS + [SEQOF_COMPONENTS_N]
